@@ -6,7 +6,7 @@
     model's rendering of unbounded recursion (stack overflow). *)
 From Coq Require Import List NArith String.
 From V Require Import Base.Util Base.Result Model.Registry Model.Format Model.Describe
-  Proofs.FormatProofs Proofs.DescribeProofs.
+  Proofs.FormatProofs Proofs.DescribeProofs Proofs.DescribeExpand.
 Import ListNotations.
 
 (** *** Termination and success.
@@ -128,11 +128,40 @@ Print Assumptions C13_unnamed_replay.
     completed unnamed id yields the same subtree again.  The three one-step
     theorems above are the policy half of it; the missing half is the
     tokenizer/printer inversion [tokens (a ++ b)] for the literal punctuation.
-    Run-time check: [prop_lockstep] (formatted and unformatted text).
+    Run-time check: [prop_lockstep] (formatted and unformatted text);
+    [prop_expanded] checks the token reading of C13_expanded_at_least_once
+    below on the OBSERVED text. *)
 
-    C13_expanded_at_least_once (full statement):
-      forall r id s, wf_descb r = true -> ... -> describe r id = Ok s ->
-        forall j t, In j (reachable r id) -> resolve r j = Some t ->
-          is_composite_or_variant (t_def t) = true ->
-          exists h, item_header r j t = Some [h] /\ is_infix h (tokens s) = true
-    Run-time check: [prop_expanded]. *)
+(** *** Every type reachable from the id through fields, variants' fields and
+    element types -- in particular every struct and enum -- is written out in
+    full at least once: the text contains, as a substring, its prefix
+    ("struct " / "enum "), its name with generic arguments and a description
+    [body] of its definition (made by the same [typedef_desc], in some cache
+    state).  Holds for EVERY registry and id on which the description
+    succeeds; with C13_total: for every well-formed registry and id.
+    ("Otherwise referred to by its name": C13_revisit_by_name.) *)
+Theorem C13_expanded_at_least_once :
+  forall (r : registry) (id : N) (s : string),
+    describe r id = Ok s ->
+    forall j : N, reach r id j ->
+      exists (t : ty) (nm body : string) (f : nat) (c1 c2 : cache),
+        resolve r j = Some t /\
+        (if is_named t then tname r (name_fuel r) t else Ok ""%string) = Ok nm /\
+        typedef_desc (dresolve r (name_fuel r) f) c1 (t_def t) = Ok (body, c2) /\
+        infix (def_prefix (t_def t) ++ nm ++ body)%string s.
+Proof. exact describe_expanded. Qed.
+Print Assumptions C13_expanded_at_least_once.
+
+(** the invariant of one [Transformer::resolve] call behind it (any registry,
+    any cache state): the id is in the cache afterwards, the cache only grows,
+    no id becomes "in progress", completed ids keep all their children in the
+    cache, and an id that enters the cache during the call is written out
+    inside the text of the call *)
+Theorem C13_resolve_invariant :
+  forall (r : registry) (nf fuel : nat) (c : cache) (id : N) (s : string) (c' : cache),
+    dresolve r nf fuel c id = Ok (s, c') ->
+    cache_mem c' id = true /\ ext c c' /\ shrinks_ip c c' /\
+    (closed_done r c -> closed_done r c') /\
+    (forall j, newly c c' j -> expanded r nf j s).
+Proof. exact dresolve_inv. Qed.
+Print Assumptions C13_resolve_invariant.
